@@ -31,6 +31,9 @@ THEOREMS = [
     'Nb.C02.error_bound_write',
     'Nb.C02.ideal_in_range_inter',
     'Nb.C02.ideal_in_range_slope',
+    'Nb.C02.finite_range_brackets',
+    'Nb.C02.error_bound_inter',
+    'Nb.C02.error_bound_slope',
     'Nb.C02.stays_in_range',
     'Nb.C02.nan_inf',
     'Nb.C02.refusal',
@@ -1134,7 +1137,7 @@ def corpus_regressions():
 
 
 def cases(rng, tier):
-    n = {'quick': 1, 'thorough': 12, 'search': 4}[tier]
+    n = {'quick': 1, 'thorough': 30, 'search': 4}[tier]
     out = []
     out += corpus_regressions()
     out += gen_spec()
